@@ -52,6 +52,9 @@ type Program struct {
 	byObj   map[*types.Func]*FuncInfo
 	parents map[ast.Node]ast.Node
 
+	postconds    map[*types.Func][]lenPostcond
+	postcondBusy bool
+
 	ssaProg *ssa.Program
 	ssaPkgs map[string]*ssa.Package
 
